@@ -1298,3 +1298,14 @@ fn(ME, "step_partition_off", label="overlapping", **_PART_COMMON, args={"fault":
    requires=[_NAMED_NET, lambda s: Not(s.alone)], ensures=[
     ("pairs-another-open-window-still-covers-stay-blocked", _inv_at_own_keys),
     ("pairs-outside-the-window-unaffected", _frame_other_key)])
+
+# ---- bounded stand-in (labelled bounded, never counted as proved): the step proofs above are per closure and assume the
+# bookkeeping entries of different windows are distinct objects (at most 3 of a kind); whole schedules - nested, identical
+# and EQUAL-amount windows included, where object sharing between faults would show - are run natively and probed
+# between all window boundaries
+PROPERTY.setdefault("bounded", []).append(
+    {"name": "overlapping-fault-windows-end-to-end",
+     "bound": "120 (quick) / 3000 (thorough) seeded schedules of 1-4 latency / loss / capacity windows on one target, incl. "
+              "identical twins and equal amounts, capacity with and without a grant held at activation; probes +-0.25 s "
+              "around every window boundary",
+     "fn": lambda seed, tier: run_native_script("triage/c06_windows.py", 120 if tier == "quick" else 3000, seed)})
